@@ -171,6 +171,12 @@ class Gen(object):
     # -- statements
     def stmt(self, fi, xj):
         rng = self.rng
+        if rng.random() < 0.12:
+            # implicit framer-relative references: timeout / repeat / elapsed / recurred stand for framer.me.state.<clock>
+            # (values far beyond the few ticks of the run, so that they never fire)
+            last = xj == len(self.framers[fi]["frames"]) - 1          # (timeout / repeat go to the lexically next frame)
+            return {"op": "clock", "kind": rng.choice(["goel", "gore", "goelgoal"] + ([] if last else ["timeout", "repeat", "timeout"])),
+                    "target": rng.randrange(len(self.framers[fi]["frames"]))}
         op = rng.choice(["put", "put", "set", "inc", "copy", "go", "go", "do", "do", "do"])
         if op == "put":
             return {"op": "put", "dst": self.ref(fi, "put.dst")}
@@ -449,6 +455,10 @@ def render_stmt(s, i, naming):
         return "copy %s into %s" % (R(s["src"]), R(s["dst"]))
     if op == "goto":
         return "go %s" % naming[("X", i, s["target"])]
+    if op == "clock":
+        tgt = naming[("X", i, s["target"])]
+        return {"timeout": "timeout 500.0", "repeat": "repeat 5000", "goel": "go %s if elapsed >= 400.0" % tgt,
+                "gore": "go %s if recurred >= 4000" % tgt, "goelgoal": "go %s if elapsed >= goal" % tgt}[s["kind"]]
     if op == "go":
         conds = []
         for n in s["needs"]:
@@ -858,6 +868,8 @@ def observe_acts(prog, house):
                 tail = name.rstrip(".").split(".")[-1]
                 if TAIL.match(tail):
                     obs.setdefault((inst.key, tail), set()).add(name.strip("."))
+                elif tail in ("elapsed", "recurred") and name.strip(".").split(".")[-2:-1] in (["state"], ["goal"]):
+                    built.setdefault("__clocks__", []).append((inst.key, fobj.name, name.strip(".")))
             if len(xo.auxes) != len(x["auxes"]):
                 problems.append("aux count differs in frame %s of %s" % (xo.name, fobj.name))
                 continue
